@@ -2133,15 +2133,20 @@ class Tag(PageElement):
         calling this method afterwards can make pretty-printed output
         look more natural.
         """
+        # Smooth this tag and every tag beneath it. The tags are
+        # collected up front and handled one at a time rather than
+        # recursively, so that deeply nested markup can't overflow the stack.
+        for tag in [self] + [d for d in self.descendants if isinstance(d, Tag)]:
+            tag._smooth_children()
+
+    def _smooth_children(self) -> None:
+        """Consolidate consecutive strings among the direct children of this `Tag`."""
         # Mark the first position of every pair of children that need
         # to be consolidated.  Do this rather than making a copy of
         # self.contents, since in most cases very few strings will be
         # affected.
         marked = []
         for i, a in enumerate(self.contents):
-            if isinstance(a, Tag):
-                # Recursively smooth children.
-                a.smooth()
             if i == len(self.contents) - 1:
                 # This is the last item in .contents, and it's not a
                 # tag. There's no chance it needs any work.
